@@ -897,8 +897,8 @@ def exec_collections(case) -> Soft:
 
 
 SUBS = [
-    Sub("histories", exec_history, strategy=histories(), quick=1600, thorough=320_000, shards_quick=16),
-    Sub("collections", exec_collections, strategy=collections(), quick=1600, thorough=160_000, shards_quick=16),
+    Sub("histories", exec_history, strategy=histories(), quick=1600, thorough=40_000, shards_quick=16),
+    Sub("collections", exec_collections, strategy=collections(), quick=1600, thorough=40_000, shards_quick=16),
 ]
 
 KNOWN_PREDICATES = {}
